@@ -26,7 +26,9 @@ CLAIMED = {
                 text="Theorem C10_subject_refines_reference: for every call history (unbounded observers, values, calls) the Subject automaton (serial-keyed map, "
                      "snapshot/clear/call, self-removing teardown) gives every observer exactly the events issued while it was registered and holds exactly the registered observers; "
                      "C10_replay_refines_reference: the same for ReplaySubject (forwarding observer registered in the inner Subject, replay gate, sbsc cell) for every history that does not use the subject after its own terminal: a new subscriber is handed the whole "
-                     "history in order, then the stored terminal or the live stream, each item once; C10_behavior_refines_reference: the same for BehaviorSubject and every initial value (the latest value or the stored terminal first); C10_async_refines_reference: AsyncSubject (take_last(1) over the inner Subject) for every history, use after the terminal included; C10_replay_history_complete / C10_behavior_latest: the history cells always hold what was pushed. All four subject kinds are thereby proved to refine the reference machine on plain histories (observers attached directly, each handle subscribing once); observers attached through operators, shared Observable values and subscriptions made inside callbacks are decided by the reference-machine oracle and the correspondence on the implementation."),
+                     "history in order, then the stored terminal or the live stream, each item once; C10_behavior_refines_reference: the same for BehaviorSubject and every initial value (the latest value or the stored terminal first); C10_async_refines_reference: AsyncSubject (take_last(1) over the inner Subject) for every history, use after the terminal included; C10_replay_history_complete / C10_behavior_latest: the history cells always hold what was pushed. All four subject kinds are thereby proved to refine the reference machine on plain histories (observers attached directly, each handle subscribing once); observers attached through operators, shared Observable values and subscriptions made inside callbacks are decided by the reference-machine oracle and the correspondence on the implementation. "
+                     "On the worklist machine itself, for every request kind, pipeline and run (re-entrant callbacks included): C10_members_only_by_subscribing (a subject's observer list grows only by SubjJoin) and C10_nothing_after_terminal_until_resubscription "
+                     "(the terminal broadcast takes its snapshot and empties the list in one step, before the first notification runs; whatever runs afterwards, a later broadcast reaches nobody until somebody subscribes again)."),
     "C03": dict(engine="coq-seq", design="DESIGN.md 6 C03",
                 technique="machine-checked proof in Coq (per-operator induction over arbitrary interleavings of the sources' events, with the StreamController bookkeeping invariant) + three-way correspondence impl = Seq = MLoc and the specification oracle on every implementation observation",
                 text="Theorems C03_merge / C03_zip / C03_amb (any number of sources) and C03_take_until / C03_skip_until / C03_sample: for EVERY sequential interleaving of the sources' events (unbounded, ill-formed sources included) "
